@@ -94,4 +94,69 @@ Theorem history_add_spec_fact (z : zip A) (x c : A) :
   zc z = Some c -> z_step z (HAdd x) = {| zb := c :: zb z; zc := Some x; zf := [] |}.
 Proof. intros H. unfold z_step. rewrite H. reflexivity. Qed.
 
+
+(* Full-state abstraction (stronger than equality of observations): in every reachable state the slice
+   holds exactly the zipper's content, in order, and nothing else; the index is the number of pages behind. *)
+Definition z_elems (z : zip A) : list A :=
+  rev (zb z) ++ match zc z with Some c => c :: zf z | None => [] end.
+
+Theorem history_state_shape_fact (ops : list (hop A)) :
+  let h := fold_left h_step ops h_init in
+  let z := fold_left (@z_step A) ops z_init in
+  h_elems h = z_elems z /\ (zc z <> None -> h_index h = length (zb z)) /\
+  (h_elems h = [] \/ h_index h < length (h_elems h)).
+Proof.
+  cbv zeta. destruct (h_reach_rel ops) as [|b c f]; unfold z_elems; simpl.
+  - split; [reflexivity|]. split; [congruence|]. left; reflexivity.
+  - split; [reflexivity|]. split; [reflexivity|]. right.
+    rewrite app_length, rev_length. simpl. lia.
+Qed.
+
+(* back and forward are mutually inverse away from the ends, and the identity at the ends (saturation) *)
+Theorem history_back_forward_fact (z : zip A) (c : A) :
+  zc z = Some c ->
+  (zb z <> [] -> z_step (z_step z HBack) HForward = z) /\
+  (zf z <> [] -> z_step (z_step z HForward) HBack = z) /\
+  (zb z = [] -> z_step z HBack = z) /\
+  (zf z = [] -> z_step z HForward = z).
+Proof.
+  destruct z as [b [c0|] f]; simpl; intros H; [|discriminate]. inversion H; subst c0.
+  repeat split.
+  - destruct b as [|b0 bs]; [congruence|]. intros _. reflexivity.
+  - destruct f as [|f0 fs]; [congruence|]. intros _. reflexivity.
+  - intros ->. reflexivity.
+  - intros ->. reflexivity.
+Qed.
+
+(* neither back nor forward changes the stored pages: only the cursor moves *)
+Theorem history_moves_keep_elems_fact (ops : list (hop A)) (o : hop A) :
+  (o = HBack \/ o = HForward) ->
+  h_elems (h_step (fold_left h_step ops h_init) o) = h_elems (fold_left h_step ops h_init).
+Proof.
+  intros [-> | ->]; simpl; [unfold h_back | unfold h_forward];
+  match goal with |- context [if ?b then _ else _] => destruct b end; reflexivity.
+Qed.
+
+(* opening a page keeps every entry up to and including the current one, in place, and makes the new
+   page the last entry: the forward entries are the only ones dropped *)
+Theorem history_add_keeps_prefix_fact (ops : list (hop A)) (x : A) :
+  let h := fold_left h_step ops h_init in
+  h_elems h <> [] ->
+  h_elems (h_add h x) = firstn (h_index h + 1) (h_elems h) ++ [x] /\
+  length (h_elems (h_add h x)) = h_index h + 2 /\
+  h_current (h_add h x) = Some x.
+Proof.
+  cbv zeta. intros Hne.
+  destruct (history_state_shape_fact ops) as (_ & _ & [E | Hlt]); cbv zeta in *; [congruence|].
+  set (h := fold_left h_step ops h_init) in *.
+  unfold h_add. destruct (h_elems h) as [|e es] eqn:E; [congruence|]. rewrite <- E in *.
+  cbn [h_elems h_index]. split; [reflexivity|].
+  assert (L : length (firstn (h_index h + 1) (h_elems h)) = h_index h + 1).
+  { rewrite firstn_length. lia. }
+  split.
+  - rewrite app_length, L. simpl. lia.
+  - unfold h_current. cbn [h_elems h_index].
+    rewrite nth_error_app2 by lia. rewrite L, Nat.sub_diag. reflexivity.
+Qed.
+
 End HF.
